@@ -36,9 +36,10 @@ class ClampBase(abc.ABC):
         """Returns parameters from initial vertex position"""
 
         def distance_from_vertex(params):
-            return f.norm(self.position - self.function(params))
+            # squared distance: smooth at the minimum (the plain norm has a kink there and stalls the optimizer)
+            return f.norm(self.position - self.function(params)) ** 2
 
-        result = scipy.optimize.minimize(distance_from_vertex, self.initial_guess, bounds=self.bounds, tol=TOL)
+        result = scipy.optimize.minimize(distance_from_vertex, self.initial_guess, bounds=self.bounds, tol=TOL**2)
 
         return result.x
 
